@@ -3,7 +3,7 @@
 P=$1; shift
 T=$(mktemp -d /tmp/verif-patched-XXXXXX)
 cp -r /repo/xandikos $T/xandikos
-(cd $T && patch -p1 -s < $P) || { echo "PATCH FAILED"; rm -rf $T; exit 9; }
+(cd $T && patch -p1 -s -F5 < $P) || { echo "PATCH FAILED"; rm -rf $T; exit 9; }
 VERIF_REPO=$T "$@"; rc=$?
 rm -rf $T
 exit $rc
